@@ -140,35 +140,40 @@ var hC10Table = []struct {
 	lit  string
 	hex  bool   // the literal is already in the printer's canonical hex form
 	want string // the expected printed literal, where it follows from IEEE 754 alone ("" = not stated)
+	nan  int    // 1: LLVM reads the literal as a NaN, 2: as a number, 0: not stated
 }{
+	// fp128: the first 16 digits after 0xL are the LOW 64 bits (LLLexer: HexToIntPair, APInt(128, Pair))
+	{types.FloatKindFP128, "0xL7FFF0000000000014000000000000000", true, "", 2}, // a finite number (exponent field 0x4000), kept as written
+	{types.FloatKindFP128, "0xL00000000000000007FFF800000000000", true, "", 1}, // the quiet NaN
+	{types.FloatKindFP128, "0xL00000000000000013FFF000000000000", true, "", 2},
 	// float powers of two whose shortest 24-bit decimal is not the exact value
-	{types.FloatKindFloat, "0x4180000000000000", false, ""}, {types.FloatKindFloat, "0x4190000000000000", false, ""}, {types.FloatKindFloat, "0xC180000000000000", false, ""},
-	{types.FloatKindFloat, "33554432.0", false, ""}, {types.FloatKindHalf, "33824.0", false, ""}, {types.FloatKindFloat, "0x41E0000000000000", false, ""},
-	{types.FloatKindFloat, "134217728.0", false, ""}, {types.FloatKindFloat, "16777216.0", false, ""},
+	{types.FloatKindFloat, "0x4180000000000000", false, "", 0}, {types.FloatKindFloat, "0x4190000000000000", false, "", 0}, {types.FloatKindFloat, "0xC180000000000000", false, "", 0},
+	{types.FloatKindFloat, "33554432.0", false, "", 0}, {types.FloatKindHalf, "33824.0", false, "", 0}, {types.FloatKindFloat, "0x41E0000000000000", false, "", 0},
+	{types.FloatKindFloat, "134217728.0", false, "", 0}, {types.FloatKindFloat, "16777216.0", false, "", 0},
 	// half written in the 16-digit double layout: subnormal, smallest normal, largest, negative, infinity, NaN
-	{types.FloatKindHalf, "0x3F00000000000000", false, "0xH0200"}, {types.FloatKindHalf, "0x3F08000000000000", false, "0xH0300"},
-	{types.FloatKindHalf, "0x3E70000000000000", false, "0xH0001"}, {types.FloatKindHalf, "0x3F0FF80000000000", false, "0xH03FF"},
-	{types.FloatKindHalf, "0x3F10000000000000", false, "0xH0400"}, {types.FloatKindHalf, "0x40EFFC0000000000", false, "0xH7BFF"},
-	{types.FloatKindHalf, "0xBF00000000000000", false, "0xH8200"}, {types.FloatKindHalf, "0x7FF0000000000000", false, "0xH7C00"},
-	{types.FloatKindHalf, "0xFFF0000000000000", false, "0xHFC00"}, {types.FloatKindHalf, "0x7FF8000000000000", false, "0xH7E00"},
-	{types.FloatKindHalf, "0xC000000000000000", false, ""},
+	{types.FloatKindHalf, "0x3F00000000000000", false, "0xH0200", 0}, {types.FloatKindHalf, "0x3F08000000000000", false, "0xH0300", 0},
+	{types.FloatKindHalf, "0x3E70000000000000", false, "0xH0001", 0}, {types.FloatKindHalf, "0x3F0FF80000000000", false, "0xH03FF", 0},
+	{types.FloatKindHalf, "0x3F10000000000000", false, "0xH0400", 0}, {types.FloatKindHalf, "0x40EFFC0000000000", false, "0xH7BFF", 0},
+	{types.FloatKindHalf, "0xBF00000000000000", false, "0xH8200", 0}, {types.FloatKindHalf, "0x7FF0000000000000", false, "0xH7C00", 0},
+	{types.FloatKindHalf, "0xFFF0000000000000", false, "0xHFC00", 0}, {types.FloatKindHalf, "0x7FF8000000000000", false, "0xH7E00", 0},
+	{types.FloatKindHalf, "0xC000000000000000", false, "", 0},
 	// float written in the 16-digit double layout: subnormal float (normal double), infinity
-	{types.FloatKindFloat, "0x36A0000000000000", false, ""}, {types.FloatKindFloat, "0x380FFFFFC0000000", false, ""},
-	{types.FloatKindFloat, "0x7FF0000000000000", false, ""}, {types.FloatKindFloat, "0xFFF0000000000000", false, ""},
-	{types.FloatKindDouble, "0x0000000000000001", false, ""}, {types.FloatKindDouble, "0x7FEFFFFFFFFFFFFF", false, ""},
+	{types.FloatKindFloat, "0x36A0000000000000", false, "", 0}, {types.FloatKindFloat, "0x380FFFFFC0000000", false, "", 0},
+	{types.FloatKindFloat, "0x7FF0000000000000", false, "", 0}, {types.FloatKindFloat, "0xFFF0000000000000", false, "", 0},
+	{types.FloatKindDouble, "0x0000000000000001", false, "", 0}, {types.FloatKindDouble, "0x7FEFFFFFFFFFFFFF", false, "", 0},
 
-	{types.FloatKindDouble, "0.0", false, ""}, {types.FloatKindDouble, "-0.0", false, ""}, {types.FloatKindDouble, "1.0", false, ""},
-	{types.FloatKindDouble, "1000000.0", false, ""}, {types.FloatKindDouble, "1.0e22", false, ""}, {types.FloatKindDouble, "5.0e7", false, ""},
-	{types.FloatKindDouble, "0.1", false, ""}, {types.FloatKindDouble, "-2.5e-3", false, ""}, {types.FloatKindDouble, "1.5e300", false, ""},
-	{types.FloatKindFloat, "1.0", false, ""}, {types.FloatKindFloat, "0.5", false, ""}, {types.FloatKindFloat, "1000000.0", false, ""},
-	{types.FloatKindFloat, "3.0e10", false, ""}, {types.FloatKindFloat, "-8.0e6", false, ""},
-	{types.FloatKindHalf, "1.0", false, ""}, {types.FloatKindHalf, "0xH3C00", false, ""}, {types.FloatKindHalf, "0xH0001", true, ""},
-	{types.FloatKindHalf, "0xH7E00", true, ""}, {types.FloatKindHalf, "0xHFE00", true, ""}, {types.FloatKindHalf, "0xHFC00", true, ""}, {types.FloatKindHalf, "0xH7C00", true, ""},
-	{types.FloatKindX86_FP80, "0xK3FFF8000000000000000", true, ""}, {types.FloatKindX86_FP80, "0xKBFFF8000000000000000", true, ""},
-	{types.FloatKindX86_FP80, "0xK7FFF8000000000000000", true, ""}, {types.FloatKindX86_FP80, "0xKFFFFBFFFFFFFFFFFFFFF", true, ""}, {types.FloatKindX86_FP80, "0xK7FFFBFFFFFFFFFFFFFFF", true, ""},
-	{types.FloatKindFP128, "0xL00000000000000003FFF000000000000", true, ""}, {types.FloatKindFP128, "0xL0000000000000000BFFF000000000000", true, ""},
-	{types.FloatKindFP128, "0xL00000000000000007FFF800000000000", true, ""}, {types.FloatKindFP128, "0xL0000000000000000FFFF800000000000", true, ""},
-	{types.FloatKindPPC_FP128, "0xM3FF00000000000000000000000000000", true, ""}, {types.FloatKindPPC_FP128, "0xMBFF00000000000000000000000000000", true, ""},
+	{types.FloatKindDouble, "0.0", false, "", 0}, {types.FloatKindDouble, "-0.0", false, "", 0}, {types.FloatKindDouble, "1.0", false, "", 0},
+	{types.FloatKindDouble, "1000000.0", false, "", 0}, {types.FloatKindDouble, "1.0e22", false, "", 0}, {types.FloatKindDouble, "5.0e7", false, "", 0},
+	{types.FloatKindDouble, "0.1", false, "", 0}, {types.FloatKindDouble, "-2.5e-3", false, "", 0}, {types.FloatKindDouble, "1.5e300", false, "", 0},
+	{types.FloatKindFloat, "1.0", false, "", 0}, {types.FloatKindFloat, "0.5", false, "", 0}, {types.FloatKindFloat, "1000000.0", false, "", 0},
+	{types.FloatKindFloat, "3.0e10", false, "", 0}, {types.FloatKindFloat, "-8.0e6", false, "", 0},
+	{types.FloatKindHalf, "1.0", false, "", 0}, {types.FloatKindHalf, "0xH3C00", false, "", 0}, {types.FloatKindHalf, "0xH0001", true, "", 0},
+	{types.FloatKindHalf, "0xH7E00", true, "", 0}, {types.FloatKindHalf, "0xHFE00", true, "", 0}, {types.FloatKindHalf, "0xHFC00", true, "", 0}, {types.FloatKindHalf, "0xH7C00", true, "", 0},
+	{types.FloatKindX86_FP80, "0xK3FFF8000000000000000", true, "", 0}, {types.FloatKindX86_FP80, "0xKBFFF8000000000000000", true, "", 0},
+	{types.FloatKindX86_FP80, "0xK7FFF8000000000000000", true, "", 0}, {types.FloatKindX86_FP80, "0xKFFFFBFFFFFFFFFFFFFFF", true, "", 0}, {types.FloatKindX86_FP80, "0xK7FFFBFFFFFFFFFFFFFFF", true, "", 0},
+	{types.FloatKindFP128, "0xL00000000000000003FFF000000000000", true, "", 0}, {types.FloatKindFP128, "0xL0000000000000000BFFF000000000000", true, "", 0},
+	{types.FloatKindFP128, "0xL00000000000000007FFF800000000000", true, "", 0}, {types.FloatKindFP128, "0xL0000000000000000FFFF800000000000", true, "", 0},
+	{types.FloatKindPPC_FP128, "0xM3FF00000000000000000000000000000", true, "", 0}, {types.FloatKindPPC_FP128, "0xMBFF00000000000000000000000000000", true, "", 0},
 }
 
 // VfC10_Table
@@ -192,6 +197,9 @@ func VfC10_Table() {
 	}
 	if row.want != "" {
 		vfAssert("C10.table.expected-literal", out == row.want)
+	}
+	if row.nan != 0 {
+		vfAssert("C10.table.nan-classification-as-llvm-reads-it", c.NaN == (row.nan == 1))
 	}
 	back, err2 := NewFloatFromString(typ, out)
 	vfAssert("C10.table.printed-is-accepted", err2 == nil)
